@@ -24,8 +24,8 @@ ASSUMPTIONS = [
 TRUSTED_EXTRA = ['the kernel guarantees (G1-G3) that make `tick` admissible only at quiescence are theorems of model K (C01), assumed for the device LTS',
                  'heapq returns an item that is minimal under PriorityItem.__lt__ (checked on every hand-off by the model, which rejects a non-minimal choice)',
                  'py2lean/elem.py + elements.py (typed AST-subset translator; hand-written per-class field schema of WFQ / VC objects, declared effects '
-                 '`add_packet_to_queue`, `active_set.add`, `store.put(PriorityItem((stamp, now), packet))`, the active-set loop as a fold over the '
-                 'list of active weights); the bridge theorems C14.wfq_put_/wfq_vtime_/vc_put_generated_eq_model tie its output to the model']
+                 '`add_packet_to_queue`, `active_set.add`, `store.put(PriorityItem((stamp, now), packet))`, the weight-sum loop in table order `for i in self.weights: if i in self.active_set` as a fold over the '
+                 'weight table paired with the membership answers)  # b-fixwfq; the bridge theorems C14.wfq_put_/wfq_vtime_/vc_put_generated_eq_model tie its output to the model']
 BRIDGES = ['C14.wfq_put_generated_eq_model', 'C14.wfq_vtime_generated_eq_model', 'C14.vc_put_generated_eq_model']
 HAND_MODELLED = ['WFQ.run / VC.run (generator control flow and WFQ\'s bookkeeping after a transmission: class_count, active_set.remove, reset)',
                  'Scheduler.send_packet (control flow, per-flow counters; its transmission delay is translated for C12: Generated/SchedTx.lean)', 'Scheduler.add_packet_to_queue', 'WFQ.__init__ / VC.__init__',
